@@ -18,7 +18,7 @@ MANIFEST = {
         "design_ref": "DESIGN.md 3/C17",
     }
 }
-PROPS = ["Nstd.Sha.Props"]
+PROPS = ["Nstd.Sha.Props", "Nstd.Sha.PropsSpec"]
 LEAN_TARGETS = PROPS + ["drv_sha"]
 DRIVER = "drv_sha"
 MAXLINE = 30000          # bytes per op line (hx.h reads lines of at most 65535 characters)
@@ -93,11 +93,22 @@ def py_sha256(msg, preset=0):
 # ---- reference: Python hashlib / hmac (independent of the Lean model) -----------------------------
 def reference(hist):
     h = hashlib.sha256()
+    h2 = hashlib.sha256()     # the second object (fork/assign/swap)
     out = []
     whitebox = None          # after `setcount n`: (n, bytes fed since) - hashlib cannot follow, py_sha256 does
     for line in hist:
         t = line.split()
         try:
+            if t[0] in ("fork", "assign", "swap") and len(t) == 1:
+                if whitebox is not None:
+                    out.append("unsupported-in-reference")
+                elif t[0] == "swap":
+                    h, h2 = h2, h
+                    out.append("ok")
+                else:
+                    h2 = h.copy()
+                    out.append("ok")
+                continue
             if t[0] == "variant" and len(t) == 2:
                 out.append("ok" if t[1] in ("rolled", "u2") else "bad-op")
                 continue
@@ -306,6 +317,29 @@ def count_histories(rng, n=40):
     return hs
 
 
+def copy_histories(rng, n):
+    """a hasher copied mid-stream (copy constructor `fork` / copy assignment `assign`): both objects continue
+    independently (`swap` exchanges which one the following ops address), each must give the digest of its own input"""
+    hs = []
+    for _ in range(n):
+        h = []
+        for _ in range(rng.randrange(1, 4)):
+            pre = rbytes(rng, rng.choice(BOUNDARY + [rng.randrange(200)]))
+            a = rbytes(rng, rng.choice([0, 1, 8, 55, 56, 63, 64, 65, rng.randrange(150)]))
+            b = rbytes(rng, rng.choice([0, 1, 8, 55, 56, 63, 64, 65, rng.randrange(150)]))
+            cut = rng.randrange(len(pre) + 1)
+            h += [f"update {hx(pre[:cut])}", f"update {hx(pre[cut:])}", rng.choice(["fork", "fork", "assign"]), f"update {hx(a)}"]
+            k = rng.random()
+            if k < 0.5:
+                h += ["swap", f"update {hx(b)}", "final", "swap", "final"]       # copy finishes first
+            elif k < 0.8:
+                h += ["final", "swap", f"update {hx(b)}", "final"]               # original finishes first; continue on the copy
+            else:
+                h += ["swap", f"update {hx(b)}", "fork", "swap", "final", "swap", "final"]   # copy of the copy replaces the original
+        hs.append(h)
+    return hs
+
+
 def xform_histories(rng, n, variant):
     """white box: single `Transform` calls on arbitrary chaining values and blocks (not only the reachable ones),
     real code vs the generated Transform of the configuration vs a pure-Python FIPS compression function"""
@@ -373,7 +407,9 @@ def histories_for(ctx):
     ctx.cov["exhaustive_scope"] = (f"lengths {'0..300 (all)' if full else str(len(lens)) + ' of 0..300 (boundary lengths + seed-chosen residue class mod 2)'}"
                                    f" x all 2-way splits: {nsplits} chunkings ({contents} random/pattern message(s) per length); lengths "
                                    f"{'0..70 (all)' if full else str(lens3)} x all 3-way splits: {nsplits3} chunkings")
-    return hs + two + three_all + three + longs + hm
+    cp = copy_histories(rng, 60 if quick else 3000)
+    ctx.cov["rule"] += f"; + {len(cp)} histories with the hasher copied mid-stream (fork/assign/swap), both copies continued and finished"
+    return hs + two + three_all + three + longs + hm + cp
 
 
 def branch_hits(hs):
@@ -381,7 +417,8 @@ def branch_hits(hs):
     b = {"finalize: one padding block (len%64 < 56)": 0, "finalize: wrap-around, two padding blocks (len%64 >= 56)": 0,
          "finalize: len%64 == 0": 0, "finalize: empty message": 0, "update completes a block mid-call": 0,
          "update with empty data": 0, "finalize on reused hasher": 0, "reset() with partial buffer": 0,
-         "hmac key < 64": 0, "hmac key == 64": 0, "hmac key > 64": 0, "hmac empty key": 0, "digests of messages > 300 bytes": 0}
+         "hmac key < 64": 0, "hmac key == 64": 0, "hmac key > 64": 0, "hmac empty key": 0, "hmac empty message": 0,
+         "digests of messages > 300 bytes": 0, "copy mid-stream with partial buffer": 0, "copy mid-stream at a block boundary": 0, "hash() static helper": 0}
     for h in hs:
         n, finals = 0, 0
         for line in h:
@@ -415,6 +452,12 @@ def branch_hits(hs):
                 b["hmac key < 64" if k < 64 else "hmac key == 64" if k == 64 else "hmac key > 64"] += 1
                 if k == 0:
                     b["hmac empty key"] += 1
+                if t[2] == "-":
+                    b["hmac empty message"] += 1
+            elif t[0] in ("fork", "assign"):
+                b["copy mid-stream with partial buffer" if n % 64 else "copy mid-stream at a block boundary"] += 1
+            elif t[0] == "hash":
+                b["hash() static helper"] += 1
     return b
 
 
